@@ -132,7 +132,7 @@ def gen_damage(rng, img, spans, classes, tier):
 
 
 def run_case(ops, patches, mode, ids, path):
-    text_ops = ops + [{'op': 60, 'mode': mode, 'coll': 1, 'patches': patches}, {'op': 24}] + [{'op': 23, 'id': i} for i in ids]
+    text_ops = ops + [{'op': 60, 'mode': mode, 'coll': 1, 'patches': patches}, {'op': 24}, {'op': 26, 'fk': 0, 'fa': 1, 'fb': 0, 'off': 0, 'lim': 0}] + [{'op': 23, 'id': i} for i in ids]
     text = render(text_ops)
     g, grc, gerr = run_harness(['store', path], text, timeout=120)
     return text, text_ops, g, grc, gerr
@@ -205,6 +205,17 @@ def check(tier, seed, replay=None):
         for id_ in got_ids:
             if id_ not in versions:
                 return 'id %d is listed although it was never written (fabricated)' % id_, co
+        # the listing search reads metadata through another path (SpanReader.getStream)
+        ll = next((l.split() for l in g_after if l.startswith('26 ')), None)
+        if ll is not None:
+            if len(ll) == 2 and ll[1] == '2':
+                return 'the listing search panicked after the damaged open', co
+            rows = [(int(ll[3 + 3 * i]), int(ll[4 + 3 * i]), int(ll[5 + 3 * i])) for i in range(int(ll[2]))] if len(ll) > 2 else []
+            for id_, ml, mh in rows:
+                if id_ not in versions:
+                    return 'the listing returns id %d, which was never written (fabricated)' % id_, co
+                if not any((len(m), hash_bytes(m)) == (ml, mh) for m, v in versions[id_]):
+                    return 'the listing returns metadata for document %d that was never written for that id (altered)' % id_, co
         for id_, d in docs.items():
             ok = any((len(m), hash_bytes(m), len(v), hash_bytes(v)) == d for m, v in versions.get(id_, ()))
             if not ok:
